@@ -57,7 +57,13 @@ def malformed_specs(chars):
         c0 = chars[0].e if hasattr(chars[0], "e") else z3.BitVecVal(chars[0], 32)
         rest = [c.e if hasattr(c, "e") else z3.BitVecVal(c, 32) for c in chars[1:]]
         for q, nm in ((34, "double"), (39, "single")):
-            out[f"unterminated_{nm}_quoted_string"] = z3.And([c0 == q] + [r != q for r in rest])
+            # a quote ends the string unless an (itself unescaped) backslash stands right before it
+            esc = z3.BoolVal(False)
+            closes = []
+            for r in rest:
+                closes.append(z3.And(r == q, z3.Not(esc)))
+                esc = z3.And(r == ord("\\"), z3.Not(esc))
+            out[f"unterminated_{nm}_quoted_string"] = z3.And([c0 == q] + [z3.Not(c) for c in closes])
     # unterminated block comment: "/*" and no "*/" afterwards
     if len(chars) >= 2:
         es = [c.e if hasattr(c, "e") else z3.BitVecVal(c, 32) for c in chars]
